@@ -241,7 +241,7 @@ def analyse_unit(name, canary):
                     for l in labels_in_span(uc, s):
                         if l.startswith("CANARY."):
                             failed_fns.add(l[len("CANARY."):])
-            proved = [f["key"] for f in uc.functions if f["mode"] == "prove"]
+            proved = [f["key"] for f in uc.functions if f["mode"] == "prove" and f.get("has_canary")]
             res.canary_ran = len(proved)
             res.canary_bad = [k for k in proved if k not in failed_fns]
             if cout is None:
